@@ -547,6 +547,17 @@ pub fn check(run: &Run) -> Value {
     });
     let spell_n = o.cases;
     total.merge(o);
+    let ocs = overlap_cases();
+    let o = run_cases(&ocs, &|_, c, out| {
+        out.nontrivial += 1;
+        out.executions += 1;
+        let vs = judge_overlap(&c.0, c.1, c.2);
+        out.outcome(if vs.is_empty() { "overlapping-selection-ok" } else { "overlapping-selection-violation" });
+        for (k, w) in vs {
+            out.violation(k, w, || json!({"overlap": {"class": c.0, "selection": c.1, "depth": c.2}}));
+        }
+    });
+    total.merge(o);
     total.report(run);
     println!("C08 sweep: doms={} serializations={} outcomes={:?} db-wide default pairs={}", total.cases, total.executions, total.outcomes, db_pairs);
     json!({
@@ -566,6 +577,9 @@ pub fn check(run: &Run) -> Value {
 }
 
 pub fn replay(case: &Value) -> Vec<(String, String)> {
+    if let Some(o) = case.get("overlap") {
+        return judge_overlap(o["class"].as_str().unwrap_or("Part"), o["selection"].as_u64().unwrap_or(0) as u8, o["depth"].as_u64().unwrap_or(1) as usize);
+    }
     if case.get("spellings").is_some() {
         let c: CaseSpell = serde_json::from_value(case.clone()).unwrap_or_else(|e| crate::evidence::machinery_failure(&format!("bad replay: {}", e)));
         return judge_spell(&c);
@@ -583,6 +597,106 @@ pub fn replay(case: &Value) -> Vec<(String, String)> {
     a
 }
 
+
+// ---------------------------------------------------------------------------
+// Selections that reach an instance twice (a root listed twice, an instance listed together with
+// its ancestor) are outside the round-trip properties: what the file then holds is the writer's
+// choice, and it may as well refuse. But "never another instance's value" still binds: if the
+// write and the read succeed, every instance that comes back under a name of the DOM shows that
+// instance's values.
+
+pub fn overlap_cases() -> Vec<(String, u8, usize)> {
+    let mut out = Vec::new();
+    for class in ["Part", "ZzUnknown", "Folder"] {
+        for selection in 0..5u8 {
+            for depth in 1..=3usize {
+                out.push((class.to_owned(), selection, depth));
+            }
+        }
+    }
+    out
+}
+
+pub fn judge_overlap(class: &str, selection: u8, depth: usize) -> Vec<(String, String)> {
+    use rbx_dom_weak::types::{Color3uint8, Vector3};
+    let mut out = Vec::new();
+    let mut dom = WeakDom::new(InstanceBuilder::new("DataModel"));
+    let mk = |i: usize| {
+        InstanceBuilder::new(class)
+            .with_name(format!("i{}", i))
+            .with_property(if class == "Part" { "Size" } else { "SomeVector" }, Variant::Vector3(Vector3::new(i as f32 + 1.5, 2.0 * i as f32 + 0.25, -(i as f32) - 3.0)))
+            .with_property(if class == "Part" { "Color" } else { "SomeColor" }, Variant::Color3uint8(Color3uint8::new(10 * i as u8 + 1, 20 * i as u8 + 2, 30 * i as u8 + 3)))
+            .with_property("Count", Variant::Int32(1000 * i as i32 + 7))
+            .with_property("Label", Variant::String(format!("label of i{}", i)))
+    };
+    let outer = dom.insert(dom.root_ref(), mk(0));
+    let mut chain = vec![outer];
+    for d in 1..=depth {
+        let parent = *chain.last().unwrap();
+        // a filler sibling of another class before the nested instance
+        dom.insert(parent, InstanceBuilder::new("Model").with_name(format!("filler{}", d)));
+        let c = dom.insert(parent, mk(d));
+        chain.push(c);
+    }
+    let other = dom.insert(dom.root_ref(), mk(depth + 1));
+    let inner = *chain.last().unwrap();
+    let roots: Vec<rbx_dom_weak::types::Ref> = match selection {
+        0 => vec![outer, inner],
+        1 => vec![inner, outer],
+        2 => vec![outer, outer],
+        3 => vec![outer, other, inner],
+        _ => vec![inner, other, inner],
+    };
+    let names = ["[outer, inner]", "[inner, outer]", "[outer, outer]", "[outer, other, inner]", "[inner, other, inner]"];
+    let read = crate::evidence::guarded(|| -> Result<WeakDom, String> {
+        let mut buf = Vec::new();
+        rbx_binary::to_writer(&mut buf, &dom, &roots).map_err(|e| format!("encode: {}", e))?;
+        rbx_binary::from_reader(buf.as_slice()).map_err(|e| format!("decode: {}", e))
+    });
+    let back = match read {
+        Ok(Ok(d)) => d,
+        Ok(Err(_)) => return out, // refusing is a legitimate answer
+        Err((site, msg)) => {
+            out.push((format!("c08|overlap|panic|{}", crate::evidence::panic_signature(&site, &msg)), format!("selection {} of nested {}: panic at {}: {}", names[selection as usize], class, site, msg)));
+            return out;
+        }
+    };
+    let show = |i: &rbx_dom_weak::Instance| -> BTreeMap<String, String> { i.properties.iter().filter(|(k, _)| matches!(k.as_str(), "Size" | "Color" | "SomeVector" | "SomeColor" | "Count" | "Label")).map(|(k, v)| (k.to_string(), format!("{:?}", v))).collect() };
+    // the reference: the same DOM written with the non-overlapping selection [outer, other]
+    // (whatever normalisations the format applies, it applies there too)
+    let reference = crate::evidence::guarded(|| -> Result<WeakDom, String> {
+        let mut buf = Vec::new();
+        rbx_binary::to_writer(&mut buf, &dom, &[outer, other]).map_err(|e| format!("encode: {}", e))?;
+        rbx_binary::from_reader(buf.as_slice()).map_err(|e| format!("decode: {}", e))
+    });
+    let reference = match reference {
+        Ok(Ok(d)) => d,
+        _ => return out, // C01's business
+    };
+    let mut want: BTreeMap<String, BTreeMap<String, String>> = BTreeMap::new();
+    for i in reference.descendants() {
+        if i.class == class {
+            want.insert(i.name.clone(), show(i));
+        }
+    }
+    for i in back.descendants() {
+        if let Some(w) = want.get(&i.name) {
+            if i.class != class {
+                continue;
+            }
+            let got = show(i);
+            if &got != w {
+                let k = w.keys().find(|k| got.get(*k) != w.get(*k)).cloned().unwrap_or_default();
+                out.push((
+                    format!("c08|overlap|foreign-value|{}", class),
+                    format!("selection {} (nesting depth {}) of {} instances: {} reads back with {} = {}, it had {}", names[selection as usize], depth, class, i.name, k, got.get(&k).cloned().unwrap_or("nothing".into()), w.get(&k).cloned().unwrap_or_default()),
+                ));
+                break;
+            }
+        }
+    }
+    out
+}
 
 // ---------------------------------------------------------------------------
 // Database-driven spellings: for every class and every logical property the database lets an
